@@ -75,23 +75,24 @@ def codeR (c : Int) : String :=
 
 /-- spec for the C++ layer: the parts consume `n` points; a point visible in every applied dimension is
     drawn by exactly one part; the interior of every drawn portion is visible in every applied dimension -/
-def visAll (s : St) (i : Nat) : Bool :=
-  s.xdims.all fun d =>
-    match s.xrange.getD d none, (s.xdata.getD d [])[i]? with
+def visAll (dims : List (Option Range × Array Rat)) (i : Nat) : Bool :=
+  dims.all fun (rg, a) =>
+    match rg, a[i]? with
     | some r, some x => r.has x
     | none, some _ => true
     | _, none => false
 
-def interiorAll (s : St) : List Part → Nat → Bool
+def interiorAll (dims : List (Option Range × Array Rat)) : List Part → Nat → Bool
   | [], _ => true
   | p :: ps, start =>
-    ((List.range p.usr).all fun k => if 0 < k ∧ k + 1 < p.usr then visAll s (start + k) else true)
-    && interiorAll s ps (start + p.raw)
+    ((List.range p.usr).all fun k => if 0 < k ∧ k + 1 < p.usr then visAll dims (start + k) else true)
+    && interiorAll dims ps (start + p.raw)
 
 def validMulti (s : St) (ps : List Part) : Bool :=
+  let dims := s.xdims.map fun d => (s.xrange.getD d none, (s.xdata.getD d []).toArray)
   decide (sumRaw ps = s.xlen)
-  && (List.range s.xlen).all (fun i => if visAll s i then drawnCount ps 0 i == 1 else true)
-  && interiorAll s ps 0
+  && (List.range s.xlen).all (fun i => if visAll dims i then drawnCount ps 0 i == 1 else true)
+  && interiorAll dims ps 0
 
 def xdump (s : St) (verdict : String) : String :=
   let ps := s.xarr
